@@ -522,24 +522,38 @@ example : Cache.RunOK (Cache.init (fun t => if t < 4 then some 0 else none))
 
 /-- **C16_oncecell.**  `clientForSystem` as a once-cell per ecosystem (its whole body is one critical section under `c.mu`): under every
 order of calls by any number of callers, each ecosystem's client is constructed at most once — so there is one set of request caches per
-ecosystem — and two callers of one ecosystem are handed the same client.
+ecosystem — and two callers of one ecosystem are handed the same client.  An ecosystem whose construction fails (`fails e`: unsupported
+system, unparsable registry URL, unreadable .npmrc) never gets a client: every caller, every time, gets the error and nothing is built.
 NOT covered (runtime behaviour this model cannot exhibit): data-race freedom of the initialisation itself.  A variant that reads the cell
 outside the lock has the same transitions at this granularity; what is wrong with it is the unordered read of the pointer and of the freshly
 built caches.  That is established by the Go race detector on the generated schedules (stream `cnc` of checks/c16.py: a fresh client per
 case, 2..4 goroutines, simultaneous and staggered first calls, per ecosystem, against in-process registries) and is observation. -/
-theorem C16_oncecell (calls : List (Nat × OnceCell.Eco)) :
-    let s := OnceCell.run calls
+theorem C16_oncecell (fails : OnceCell.Eco → Bool) (calls : List (Nat × OnceCell.Eco)) :
+    let s := OnceCell.run fails calls
     (∀ e, s.built e ≤ 1) ∧
-    (∀ t t' e c c', s.got t = some (e, c) → s.got t' = some (e, c') → c = c') := by
+    (∀ t t' e c c', s.got t = some (e, c) → s.got t' = some (e, c') → c = c') ∧
+    (∀ e, fails e = true → s.built e = 0 ∧ ∀ t c, s.got t ≠ some (e, c)) := by
   intro s
-  have h := OnceCell.inv_run calls
-  refine ⟨fun e => by have := h.built_le e; show (OnceCell.run calls).built e ≤ 1; split at this <;> omega, ?_⟩
-  intro t t' e c c' h1 h2
-  have a := h.got_cell t e c h1
-  have b := h.got_cell t' e c' h2
-  rw [a] at b; cases b; rfl
+  have h := OnceCell.inv_run fails calls
+  refine ⟨fun e => by have := h.built_le e; show (OnceCell.run fails calls).built e ≤ 1; split at this <;> omega, ?_, ?_⟩
+  · intro t t' e c c' h1 h2
+    have a := h.got_cell t e c h1
+    have b := h.got_cell t' e c' h2
+    rw [a] at b; cases b; rfl
+  · intro e hf
+    have hn := h.fail_none e hf
+    refine ⟨by have := h.built_le e; rw [hn] at this; exact this, ?_⟩
+    intro t c hg
+    have := h.got_cell t e c hg
+    rw [hn] at this; cases this
 
-example : (OnceCell.run [(0, 2), (1, 2), (2, 1), (3, 2)]).built 2 = 1 ∧ (OnceCell.run [(0, 2), (1, 2), (2, 1), (3, 2)]).got 3 = some (2, 0) := by decide
+example : (OnceCell.run (fun _ => false) [(0, 2), (1, 2), (2, 1), (3, 2)]).built 2 = 1 ∧
+    (OnceCell.run (fun _ => false) [(0, 2), (1, 2), (2, 1), (3, 2)]).got 3 = some (2, 0) := by decide
+
+/-- an ecosystem whose client cannot be constructed: every caller fails, nothing is built, the other ecosystems are unaffected -/
+example : (OnceCell.run (fun e => e == 1) [(0, 1), (1, 2), (2, 1), (3, 2)]).built 1 = 0 ∧
+    (OnceCell.run (fun e => e == 1) [(0, 1), (1, 2), (2, 1), (3, 2)]).got 2 = none ∧
+    (OnceCell.run (fun e => e == 1) [(0, 1), (1, 2), (2, 1), (3, 2)]).got 3 = some (2, 0) := by decide
 
 /-! ## (c) the status ticker: `C16_ticker_guarded` lives in Properties/C16Ticker.lean, the only module that depends on the
 regenerated table, so that a change of extractor/filesystem that breaks it leaves the obligations above standing. -/
